@@ -162,6 +162,22 @@ impl Fdt {
             ));
         }
 
+        if !is_xml_str(obj.content_location.as_str())
+            || !is_xml_str(&obj.content_type)
+            || !obj.md5.as_deref().map(is_xml_str).unwrap_or(true)
+            || !obj.config.e_tag.as_deref().map(is_xml_str).unwrap_or(true)
+            || !obj
+                .config
+                .groups
+                .as_ref()
+                .map(|groups| groups.iter().all(|group| is_xml_str(group)))
+                .unwrap_or(true)
+        {
+            return Err(FluteError::new(
+                "Object metadata contains a character that XML 1.0 cannot carry, the FDT would not be well-formed",
+            ));
+        }
+
         if obj.config.toi.is_none() {
             obj.set_toi(self.allocate_toi());
         }
@@ -382,6 +398,14 @@ impl Fdt {
     }
 
     pub fn to_xml(&self, now: SystemTime) -> Result<Vec<u8>> {
+        if let Some(groups) = self.groups.as_ref() {
+            if !groups.iter().all(|group| is_xml_str(group)) {
+                return Err(FluteError::new(
+                    "FDT group contains a character that XML 1.0 cannot carry, the FDT would not be well-formed",
+                ));
+            }
+        }
+
         let mut buffer = ToFmtWrite(Vec::new());
         let mut writer = quick_xml::Writer::new_with_indent(&mut buffer, b' ', 2);
 
@@ -403,6 +427,18 @@ impl Fdt {
 
         Ok(buffer.0)
     }
+}
+
+/// `true` if every character of `s` is a Char of XML 1.0 (section 2.2): such a string can be written to the FDT
+/// (escaped where needed), any other character makes the document not well-formed
+fn is_xml_str(s: &str) -> bool {
+    s.chars().all(|c| {
+        matches!(c,
+            '\u{9}' | '\u{A}' | '\u{D}'
+            | '\u{20}'..='\u{D7FF}'
+            | '\u{E000}'..='\u{FFFD}'
+            | '\u{10000}'..='\u{10FFFF}')
+    })
 }
 
 struct ToFmtWrite<T>(pub T);
